@@ -90,6 +90,9 @@ type Ctx struct {
 	entryEnv  *SpecEnv
 	axiomsUsed []string
 	frontier   map[string]string // heap version -> allocation frontier when it was created
+	frameOn      bool
+	frameAllowed map[string][]string
+	frameWhole   map[string]bool
 }
 
 func NewCtx(w *World, fn *ssa.Function, mode Mode) *Ctx {
